@@ -5,7 +5,7 @@ validate_crc / unpack(validate_crc=True), FusionEngineDecoder, and `crc32` as im
 in-process; src/point_one/fusion_engine/messages/crc.cc (+ crc.h IsValid, the framer) through cxx/c06_harness.cc,
 compiled on every run with ASan + UBSan.
 Model: FeVerif/Model/Crc32.lean, FeVerif/Model/Encoder.lean through the driver commands crcspec / crctab / crcsplit /
-crclin / encode / validate.
+crclin / encode / session (the encoder model stepped over a whole call history, source identifier given or omitted) / validate.
 Oracle: the property statement, written directly below (the three CRC routines agree; the encoder's fields; every
 validator accepts encoder output; every validator rejects every altered message - in particular a message whose size
 field was altered to any value is refused without a read outside the caller's buffer, C06_oversize_rejected).
@@ -382,75 +382,210 @@ def judge_crc(ctx, buf, init, z, cx, tab, spec):
 
 
 # ---- stage C/D part 2: the encoder -------------------------------------------------------------------------
+# A call of a history: (encoder index, payload object, type, version, payload bytes | None when pack() raises,
+# source identifier | None when the call omits the argument, call form).
+SRC_OK = [0, 1, 7, 255, 256, 65535, 65536, 0x7FFFFFFF, 0x80000000, 0xFFFFFFFE, 0xFFFFFFFF]
+SRC_REFUSED = [1 << 32, (1 << 32) + 1, 1 << 64, -1, -(1 << 31), -(1 << 32)]
+FORMS = ('pos', 'kw', 'kwall')
+
+
+def call_encoder(enc, obj, src, form):
+    """encode_message in each way a caller can write it; src None = the source_identifier argument is omitted."""
+    if src is None:
+        return enc.encode_message(message=obj) if form == 'kwall' else enc.encode_message(obj)
+    if form == 'kw':
+        return enc.encode_message(obj, source_identifier=src)
+    if form == 'kwall':
+        return enc.encode_message(message=obj, source_identifier=src)
+    return enc.encode_message(obj, src)
+
+
+def failing_objects(ctx, bad):
+    """(object, type, version) of payload objects whose pack() raises."""
+    from fusion_engine_client.messages import message_type_to_class
+    res = [(bad, 10000, 0)]
+    for t, c in sorted(message_type_to_class.items(), key=lambda x: int(x[0])):
+        try:
+            obj = c()
+        except Exception:
+            continue
+        try:
+            obj.pack()
+        except Exception:
+            res.append((obj, int(obj.get_type()), int(obj.get_version())))
+    ctx.count('payload_objects_whose_pack_raises', len(res))
+    return res
+
+
+def directed_history(rng, obj, t, v, p, bad, long_form=True):
+    """One encoder: calls that omit the source identifier after every kind of call that was given one (zero, small, 2^32 - 1,
+    refused 2^32 / -1, a payload whose pack() raises), in every call form."""
+    s1, s2, s3, s4 = [rng.choice([1, 7, 255, 12345, 0x80000000, rng.getrandbits(32) | 1]) for _ in range(4)]
+    good = (0, obj, t, v, p)
+    fail = (0,) + bad + (None,)
+    if not long_form:
+        return [good + (None, 'pos'), good + (s1, 'kw'), good + (None, 'kwall'), good + (1 << 32, 'pos'), good + (None, 'pos')]
+    return [good + (None, 'pos'), good + (s1, 'pos'), good + (None, 'pos'), good + (0, 'kw'), good + (None, 'kwall'),
+            good + (M32, 'kw'), good + (None, 'pos'), good + (1 << 32, 'pos'), good + (None, 'pos'), good + (-1, 'kw'),
+            good + (None, 'kwall'), fail + (s2, 'pos'), good + (None, 'pos'), fail + (None, 'pos'), good + (None, 'pos'),
+            good + (s3, 'kwall'), good + (s4, 'kw'), good + (None, 'pos'), good + (s4, 'pos')]
+
+
+def interleaved_history(rng, a, b, bad):
+    """Two encoder objects (the second constructed after the first was used), calls alternating: what one encoder was given must
+    not show in the other's messages, each numbers its own messages."""
+    A = (0,) + a
+    B = (1,) + b
+    s1, s2 = rng.choice([3, 77, M32]), rng.choice([5, 1 << 31, 0xFFFFFFFE])
+    return [A + (s1, 'pos'), B + (None, 'pos'), A + (None, 'pos'), B + (s2, 'kw'), A + (None, 'kwall'), B + (None, 'pos'),
+            A + (1 << 32, 'kw'), B + (None, 'pos'), A + (None, 'pos'), (1,) + bad + (None, s1, 'pos'), A + (None, 'pos'),
+            B + (None, 'kwall'), B + (-1, 'pos'), A + (s2, 'pos'), B + (None, 'pos'), A + (None, 'pos')]
+
+
+def random_history(rng, pool, bad, nenc):
+    calls = []
+    for _ in range(rng.randrange(4, 25)):
+        k = rng.randrange(nenc)
+        r = rng.random()
+        src = None if r < 0.4 else rng.choice(SRC_OK + [rng.getrandbits(32)]) if r < 0.85 else rng.choice(SRC_REFUSED)
+        form = rng.choice(FORMS)
+        if rng.random() < 0.12:
+            calls.append((k,) + rng.choice(bad) + (None, src, form))
+        else:
+            _, obj, t, v, p = rng.choice(pool)
+            calls.append((k, obj, t, v, p, src, form))
+    return calls
+
+
 def check_encoder(ctx, exe, objs):
     """Returns the list of encoded messages (label, bytes)."""
-    from fusion_engine_client.parsers.encoder import FusionEngineEncoder
-    from fusion_engine_client.messages import MessageHeader
     rng = ctx.rng
     sessions = []
     for label, obj, t, v, p in objs:
         for start in (0, rng.choice([1, 77, 0x7FFFFFFF]), 0xFFFFFFFE):
             srcs = [rng.choice([0, 1, 7, 0xFFFFFFFF, 0x80000000, rng.getrandbits(32)]) for _ in range(3)]
-            sessions.append((label, [(obj, t, v, p, s) for s in srcs], start))
+            sessions.append((label, [(0, obj, t, v, p, s, 'pos') for s in srcs], [start]))
     # sessions with failing calls in the middle: pack() raising, source id outside its field
     bad = make_raw_class(10000, 0, b'', raises=True)()
+    fails = failing_objects(ctx, bad)      # payload objects whose pack() raises: the raw one and every registered class whose default does
     for label, obj, t, v, p in objs[:6] + objs[-3:]:
         for start in (0, 0xFFFFFFFF):
             calls = [(obj, t, v, p, 3), (bad, 10000, 0, None, 3), (obj, t, v, p, 1 << 32), (obj, t, v, p, -1), (obj, t, v, p, 4),
                      (obj, t, v, p, 5)]
-            sessions.append((label + '+failing', calls, start))
-    encoded = []
+            sessions.append((label + '+failing', [(0,) + c + ('pos',) for c in calls], [start]))
+    # call HISTORIES: every payload class through one encoder with the source identifier given / omitted / refused in turn;
+    # two encoder objects interleaved; random histories over up to three encoder objects
+    histories = []
+    for i, (label, obj, t, v, p) in enumerate(objs):
+        start = (0, 0, rng.choice([1, 77, 0x7FFFFFFF]), 0xFFFFFFFD)[i % 4]
+        histories.append((label + '+history', directed_history(rng, obj, t, v, p, fails[i % len(fails)], long_form=len(p) <= 1000), [start]))
+    small = [o for o in objs if len(o[4]) <= 1000]
+    pairs = list(zip(small, small[1:] + small[:1]))
+    if not ctx.thorough:
+        pairs = pairs[:2] + rng.sample(pairs[2:], min(len(pairs) - 2, 14))
+    for (la, *a), (lb, *b) in pairs:
+        starts = rng.choice([[0, 0], [0, 0], [0xFFFFFFFE, 0], [5, 0xFFFFFFFF]])
+        histories.append(('%s/%s+two-encoders' % (la, lb), interleaved_history(rng, tuple(a), tuple(b), rng.choice(fails)), starts))
+    for i in range(150 if ctx.thorough else 40):
+        nenc = rng.choice([1, 1, 2, 3])
+        starts = [rng.choice([0, 0, 0, 1, 0xFFFFFFF0 + rng.randrange(16), rng.getrandbits(32)]) for _ in range(nenc)]
+        histories.append(('random-history-%d' % i, random_history(rng, small, fails, nenc), starts))
+    encoded, hist_encoded = [], []
     lines, pend = [], []
-    for label, calls, start in sessions:
-        run_session(ctx, label, calls, start, lines, pend, encoded)
+    for label, calls, starts in sessions:
+        run_history(ctx, label, calls, starts, lines, pend, encoded)
+    for label, calls, starts in histories:
+        run_history(ctx, label, calls, starts, lines, pend, hist_encoded)
+        ctx.count('encoder_call_histories')
     outs = ctx.driver(lines)
     for (replay, impl), model in zip(pend, outs):
-        if impl != model:
+        if isinstance(impl, list):          # a whole history of one encoder object against the model stepped over it
+            steps = model.split('|')
+            if len(steps) != len(impl):
+                ctx.disagree('encoder history: model answered %d calls of %d: %s' % (len(steps), len(impl), model[:160]), replay)
+                continue
+            for i, (a, m) in enumerate(zip(impl, steps)):
+                if a != m:
+                    ctx.disagree('encode_message != model stepped over the call history, call %d of this encoder: impl=%s model=%s'
+                                 % (i, a[:160], m[:160]), replay)
+                    break
+        elif impl != model:
             ctx.disagree('encode_message != model: impl=%s model=%s' % (impl[:160], model[:160]), replay)
     # the validators on what the encoder produced
     seen = set()
-    uniq = []
-    for label, b in encoded:
-        if b not in seen:
-            seen.add(b)
-            uniq.append((label, b))
-    hout = run_harness(ctx, exe, ['msg ' + hx(b) for _, b in uniq])
-    dout = ctx.driver(['validate ' + hx(b) for _, b in uniq])
-    for (label, b), cx, md in zip(uniq, hout, dout):
+    uniq, uniq_hist = [], []
+    for src_list, dst in ((encoded, uniq), (hist_encoded, uniq_hist)):
+        for label, b in src_list:
+            if b not in seen:
+                seen.add(b)
+                dst.append((label, b))
+    both = uniq + uniq_hist
+    hout = run_harness(ctx, exe, ['msg ' + hx(b) for _, b in both])
+    dout = ctx.driver(['validate ' + hx(b) for _, b in both])
+    for (label, b), cx, md in zip(both, hout, dout):
         judge_valid(ctx, label, b, cx, md)
     return uniq
 
 
-def run_session(ctx, label, calls, start, lines, pend, encoded):
+def py_decode_headers(buf):
+    """(type, version, sequence number, source identifier, payload size) of every message a fresh FusionEngineDecoder returns."""
+    from fusion_engine_client.parsers.decoder import FusionEngineDecoder
+    dec = FusionEngineDecoder(max_payload_len_bytes=1 << 24, return_bytes=True, return_offset=True, warn_on_error='none')
+    try:
+        res = dec.on_data(bytes(buf))
+    except Exception as e:
+        return 'raised:' + type(e).__name__
+    return [(int(r[0].message_type), int(r[0].message_version), int(r[0].sequence_number), int(r[0].source_identifier),
+             int(r[0].payload_size_bytes)) for r in res]
+
+
+def run_history(ctx, label, calls, starts, lines, pend, encoded):
+    """A history of encode_message calls over len(starts) encoder objects (object k is constructed at its first call; its
+    sequence_number attribute is assigned only when starts[k] != 0).  Oracle after every call: the produced message carries the
+    payload's type and version, the source identifier given to THAT call (0 when omitted), the sequence number following the
+    previous message of the same encoder object; a refused call produces nothing.  Model: each call on its own from the
+    encoder's state (`encode`), and the model stepped over the whole history of each encoder object (`session`)."""
     from fusion_engine_client.parsers.encoder import FusionEngineEncoder
-    enc = FusionEngineEncoder()
-    enc.sequence_number = start
-    expect_seq = start          # sequence number the next produced message must carry
+    encs = [None] * len(starts)
+    expect_seq = list(starts)       # per encoder object: the sequence number its next produced message must carry
     trace = []
-    for obj, t, v, p, src in calls:
+    sess = [([], []) for _ in starts]        # per encoder object: model call tokens, implementation answers
+    streams = [([], []) for _ in starts]     # per encoder object: produced bytes, expected header fields
+    base = {'kind': 'encode', 'label': label, 'starts': list(starts)}
+    for k, obj, t, v, p, src, form in calls:
+        if encs[k] is None:
+            encs[k] = FusionEngineEncoder()
+            if starts[k] != 0:
+                encs[k].sequence_number = starts[k]
+        enc = encs[k]
+        want_src = 0 if src is None else src
         before = enc.sequence_number
-        call = {'type': t, 'version': v, 'source': src, 'payload': None if p is None else hx(p), 'seq_before': before}
+        call = {'enc': k, 'type': t, 'version': v, 'source': src, 'form': form, 'payload': None if p is None else hx(p),
+                'seq_before': before}
         trace.append(call)
-        replay = {'kind': 'encode', 'label': label, 'start': start, 'calls': list(trace)}
+        replay = dict(base, calls=list(trace))
         try:
-            out = bytes(enc.encode_message(obj, src))
+            out = bytes(call_encoder(enc, obj, src, form))
             impl = 'ok %s %d' % (out.hex(), enc.sequence_number)
         except Exception as e:
             out = None
             kind = 'structError' if type(e).__name__ == 'error' else ('packError' if p is None else 'Other:' + type(e).__name__)
             impl = 'err %s %d' % (kind, enc.sequence_number)
-        ctx.case('enc %s %d %d %d %s' % (label, t, v, before, src), nontrivial=out is not None)
+        ctx.case('enc %s %d %d %d %s %s %d' % (label, t, v, before, src, form, k), nontrivial=out is not None)
         ctx.count('encode_calls_ok' if out is not None else 'encode_calls_failing')
+        ctx.count('encode_calls_source_omitted' if src is None else 'encode_calls_source_given')
         ctx.cov['traces_validated_against_impl'] += 1
-        if 0 <= src and 0 <= before:
-            lines.append('encode %d %d %d %d %s' % (t, v, before, src, '!' if p is None else hx(p)))
+        if isinstance(before, int) and 0 <= before:
+            sess[k][0].append('%d:%d:%s:%s' % (t, v, '_' if src is None else src, '!' if p is None else hx(p)))
+            sess[k][1].append(impl)
+        if 0 <= want_src and isinstance(before, int) and 0 <= before:
+            lines.append('encode %d %d %d %d %s' % (t, v, before, want_src, '!' if p is None else hx(p)))
             pend.append((replay, impl))
-        else:
-            # a negative argument is outside the model's domain (Nat); the property below still applies
-            if out is not None:
-                ctx.violation('C06/encoder-negative-argument-accepted', 'encode_message produced bytes for source %d' % src, replay)
+        elif out is not None:
+            # a negative source identifier cannot be carried by the header
+            ctx.violation('C06/encoder-negative-argument-accepted', 'encode_message produced bytes for source %d' % want_src, replay)
         if out is None:
-            fits = p is not None and 0 <= src <= M32 and 0 <= before <= M32 and len(p) <= M32
+            fits = p is not None and 0 <= want_src <= M32 and 0 <= before <= M32 and len(p) <= M32
             if fits:
                 ctx.violation('C06/encoder-raised', 'encode_message raised on in-range arguments: %s' % impl, replay)
             continue
@@ -460,28 +595,49 @@ def run_session(ctx, label, calls, start, lines, pend, encoded):
             ctx.violation('C06/encoder-framing-constants', 'sync/reserved/protocol = %r' % ((s0, s1, res, pv),), replay)
         if mt != t or mv != v:
             ctx.violation('C06/encoder-type-or-version', 'header carries type %d version %d, payload is type %d version %d' % (mt, mv, t, v), replay)
-        if sid != src:
-            ctx.violation('C06/encoder-source-id', 'header carries source %d, given %d' % (sid, src), replay)
+        if sid != want_src:
+            ctx.violation('C06/encoder-source-id', 'header carries source %d, %s (call %d of the history, encoder object %d)'
+                          % (sid, 'the call omitted source_identifier (0)' if src is None else 'given %d' % src, len(trace) - 1, k), replay)
         if size != len(p) or out[HDR:] != p or len(out) != HDR + len(p):
             ctx.violation('C06/encoder-payload-size', 'payload_size %d, payload has %d bytes, message %d bytes' % (size, len(p), len(out)), replay)
-        if seq != expect_seq % (1 << 32):
+        if seq != expect_seq[k] % (1 << 32):
             ctx.violation('C06/encoder-sequence-not-consecutive',
-                          'message carries sequence %d, the previous produced message implies %d' % (seq, expect_seq % (1 << 32)), replay)
-        expect_seq = seq + 1
+                          'message carries sequence %d, the previous produced message implies %d' % (seq, expect_seq[k] % (1 << 32)), replay)
+        streams[k][0].append(out)
+        streams[k][1].append((t, v, expect_seq[k] % (1 << 32), want_src, len(p)))
+        expect_seq[k] = seq + 1
         encoded.append((label, out))
-    # a session must not stop producing messages: after the calls above one more in-range call must succeed
-    obj, t, v, p, _ = calls[0]
-    if p is not None:
+    for k, (tokens, impls) in enumerate(sess):
+        if tokens:
+            lines.append('session %d %s' % (starts[k], ' '.join(tokens)))
+            pend.append((dict(base, calls=list(trace), encoder_object=k), impls))
+    # the stream decoder's view of what each encoder object produced, in order
+    for k, (outs, want) in enumerate(streams):
+        if outs and sum(len(o) for o in outs) <= 1 << 16:
+            got = py_decode_headers(b''.join(outs))
+            if got != want:
+                first = next((i for i, (g, w) in enumerate(zip(got, want)) if g != w), min(len(got), len(want))) if isinstance(got, list) else 0
+                ctx.violation('C06/encoder-stream-fields-seen-by-decoder',
+                              'FusionEngineDecoder on the %d messages of encoder object %d: message %d is (type, version, sequence, source, size) = %s, '
+                              'the calls imply %s' % (len(outs), k, first, (got[first] if first < len(got) else 'not returned') if isinstance(got, list) else got,
+                                                      want[first] if first < len(want) else 'no further message'),
+                              dict(base, calls=list(trace), encoder_object=k))
+    # a session must not stop producing messages: after the calls above one more in-range call must succeed on every encoder object
+    for k, enc in enumerate(encs):
+        first = next((c for c in calls if c[0] == k and c[4] is not None), None)
+        if enc is None or first is None:
+            continue
+        _, obj, t, v, p, _, _ = first
+        final = trace + [{'enc': k, 'type': t, 'version': v, 'source': 0, 'form': 'pos', 'payload': hx(p)}]
         try:
             out = bytes(enc.encode_message(obj, 0))
             seq = struct.unpack_from('<I', out, 12)[0]
-            if seq != expect_seq % (1 << 32):
-                ctx.violation('C06/encoder-sequence-not-consecutive', 'message carries sequence %d, expected %d' % (seq, expect_seq % (1 << 32)),
-                              {'kind': 'encode', 'label': label, 'start': start, 'calls': trace + [{'type': t, 'version': v, 'source': 0, 'payload': hx(p)}]})
+            if seq != expect_seq[k] % (1 << 32):
+                ctx.violation('C06/encoder-sequence-not-consecutive', 'message carries sequence %d, expected %d' % (seq, expect_seq[k] % (1 << 32)),
+                              dict(base, calls=final))
         except Exception as e:
-            ctx.violation('C06/encoder-sequence-wrap', 'encode_message raises %s: %s once the sequence number passed 2^32 - 1 (encoder.sequence_number = %d)'
-                          % (type(e).__name__, e, enc.sequence_number),
-                          {'kind': 'encode', 'label': label, 'start': start, 'calls': trace + [{'type': t, 'version': v, 'source': 0, 'payload': hx(p)}]})
+            ctx.violation('C06/encoder-sequence-wrap', 'encode_message raises %s: %s once the sequence number passed 2^32 - 1 (encoder.sequence_number = %s)'
+                          % (type(e).__name__, e, enc.sequence_number), dict(base, calls=final))
 
 
 def py_canon(pv):
@@ -932,7 +1088,13 @@ def check(ctx):
     ctx.cov['rule'] = ('CRC: all 1-byte buffers x 5 initial values and all 65536 2-byte buffers in zlib, C++ and both Lean definitions; random buffers '
                        'of boundary and random lengths up to 65536 with random initial values; every split point of buffers up to 64 bytes. '
                        'Encoder: every registered payload class whose default object packs + raw payloads of lengths 0..4096 (65536 thorough) x 3 start '
-                       'sequence numbers (0, random, 2^32-2) x 3 consecutive calls with varying source ids, + sessions with failing calls. '
+                       'sequence numbers (0, random, 2^32-2) x 3 consecutive calls with varying source ids, + sessions with failing calls; '
+                       'call histories: for every such payload object one encoder object driven through calls that give / omit / are refused '
+                       'a source identifier in turn (0, small, 2^32-1; refused 2^32, -1; a payload whose pack() raises; positional and keyword '
+                       'call forms), two encoder objects interleaved (the second constructed after the first was used), and random histories '
+                       'over 1-3 encoder objects mixing payload classes; after every call the message is compared with the arguments of THAT '
+                       'call (source 0 when omitted) and with the Lean encoder model stepped over the same history, and each encoder object\'s '
+                       'output stream is read back through FusionEngineDecoder. '
                        'Corruption: for every distinct encoded message every single-bit flip of bytes [4, end), double flips (all pairs for messages '
                        '<= 64 bytes, sampled otherwise), bursts <= 32 bits at random positions inside one region; each altered copy given to '
                        'unpack(validate_crc=True), FusionEngineDecoder (alone and followed by a valid message), IsValid, the CRC compare and the C++ framer. '
@@ -1002,13 +1164,19 @@ def replay(ctx, path):
         calls = []
         for c in r['calls']:
             p = None if c['payload'] is None else bytes.fromhex(c['payload'].replace('-', ''))
-            calls.append((make_raw_class(c['type'], c['version'], p, raises=p is None)(), c['type'], c['version'], p, c['source']))
+            calls.append((c.get('enc', 0), make_raw_class(c['type'], c['version'], p, raises=p is None)(), c['type'], c['version'], p,
+                          c['source'], c.get('form', 'pos')))
         lines, pend, enc = [], [], []
-        run_session(ctx, r.get('label', '?'), calls, r['start'], lines, pend, enc)
+        run_history(ctx, r.get('label', '?'), calls, r['starts'] if 'starts' in r else [r['start']], lines, pend, enc)
         outs = ctx.driver(lines)
         for (rp, impl), model in zip(pend, outs):
-            print('impl  %s\nmodel %s' % (impl[:200], model[:200]))
-            if impl != model:
+            if isinstance(impl, list):
+                for c, a, m in zip([c for c in r['calls'] if c.get('enc', 0) == rp['encoder_object']], impl, model.split('|')):
+                    print('encoder object %d, source %s:\n  impl  %s\n  model %s' % (rp['encoder_object'], c['source'], a[:200], m[:200]))
+                if impl != model.split('|'):
+                    ctx.disagree('encode_message != model stepped over the call history', rp)
+            elif impl != model:
+                print('impl  %s\nmodel %s' % (impl[:200], model[:200]))
                 ctx.disagree('encode_message != model', rp)
     else:
         print('nothing to replay in %s' % path)
